@@ -1,8 +1,8 @@
-(* C04, float fields of SysStat: decimal numbers with at most 4 integer digits and one
+(* C04, float fields of SysStat: decimal numbers with at most 3 integer digits and one
    decimal (temperatures) or 2 integer digits and two decimals (voltage) are recovered
    exactly from the float32 the decoder stores: f32_scaled k (parse_float32 s) = the number
    the reference reader reads.  A finite sweep over all such strings (both signs, leading
-   zeros included: 222 200 + 22 000 strings), checked by vm_compute and lifted to every
+   zeros included: 22 200 + 22 000 strings), checked by vm_compute and lifted to every
    string the reader accepts strictly. *)
 From RP Require Import Lib.Base Lib.Sexp Lib.Strings Lib.FloatFmt Model.MsgOut Model.DecOut
   Spec.DenoteOut Spec.GrammarOut Proofs.GfxNum Proofs.OutStrings Proofs.OutDecSkel Proofs.OutDecEvent.
@@ -27,7 +27,7 @@ Definition dec_ok (k : nat) (s : bytes) : bool :=
   | _ => false
   end.
 
-Lemma sweep_tenths : forallb (dec_ok 1) (dec_strings 1 [1; 2; 3; 4]%nat) = true.
+Lemma sweep_tenths : forallb (dec_ok 1) (dec_strings 1 [1; 2; 3]%nat) = true.
 Proof. vm_compute. reflexivity. Qed.
 
 Lemma sweep_hundredths : forallb (dec_ok 2) (dec_strings 2 [1; 2]%nat) = true.
@@ -52,7 +52,7 @@ Qed.
 (* every string the reader accepts strictly is in the sweep *)
 Lemma read_dec_in_sweep (k : nat) (lens : list nat) (maxip : nat) s x :
   (forall n, (1 <= n <= maxip)%nat -> In n lens) ->
-  maxip = (if (k =? 1)%nat then 4 else 2)%nat ->
+  maxip = (if (k =? 1)%nat then 3 else 2)%nat ->
   read_dec k s = Some (true, x) -> In s (dec_strings k lens).
 Proof.
   intros Hlens Hmax H. unfold read_dec in H.
@@ -79,8 +79,8 @@ Qed.
 Lemma tenths_exact s x : read_dec 1 s = Some (true, x) -> f32_scaled 1 (parse_float32 s) = x.
 Proof.
   intros H.
-  assert (Hin : In s (dec_strings 1 [1; 2; 3; 4]%nat)).
-  { apply (read_dec_in_sweep 1 _ 4 s x); [|reflexivity|exact H]. intros n Hn. cbn [In]. lia. }
+  assert (Hin : In s (dec_strings 1 [1; 2; 3]%nat)).
+  { apply (read_dec_in_sweep 1 _ 3 s x); [|reflexivity|exact H]. intros n Hn. cbn [In]. lia. }
   pose proof sweep_tenths as Hsw. rewrite forallb_forall in Hsw. specialize (Hsw s Hin).
   unfold dec_ok in Hsw. rewrite H in Hsw. apply Z.eqb_eq in Hsw. exact Hsw.
 Qed.
